@@ -61,9 +61,17 @@ package handlers
 //@   ensures [ok-shape] implies(isnil(result2), result1 != nil && result0.aggregate != nil && result0.server != nil)
 //@ func (mapCommand).Start
 //@   requires [aggregate] m.aggregate != nil
+// The source id of a file (C07): the path components at the positions where the
+// glob has a wildcard, joined by "/"; the file's base name when the glob has
+// none.
 //@ func (*readCommand).makeGlobID
 //@   requires [same-depth] uf_strcount(path, "/") >= uf_strcount(glob, "/")
 //@   assigns nothing
+//@   bind pathParts == strings.Split@strings.Split(path
+//@   bind globParts == strings.Split@strings.Split(glob
+//@   loop 1 invariant [wildcard-positions-only] -1 <= rangeindex && rangeindex < len(globParts) && implies(forall(i, 0, rangeindex + 1, !contains(globParts[i], "*")), len(idParts) == 0)
+//@   loop 1 step [component-at-a-wildcard] ite(contains(globParts[rangeindex], "*"), len(idParts) == prev(len(idParts)) + 1 && idParts[len(idParts) - 1] == pathParts[rangeindex], len(idParts) == prev(len(idParts))) && forall(i, 0, prev(len(idParts)), idParts[i] == prev(idParts)[i])
+//@   ensures [base-name-without-wildcard] implies(forall(i, 0, len(globParts), !contains(globParts[i], "*")) && len(pathParts) > 0, result == pathParts[len(pathParts) - 1])
 // The permission check dominates every reader: read is called only after
 // HasFilePermission(path, "readfiles") returned true for that very path.
 //@ func (*readCommand).readFileIfPermissions
